@@ -66,18 +66,35 @@ Theorem C18_each_file_finds_its_own_line files :
 Proof. exact (exact_lookup_own_line files). Qed.
 Print Assumptions C18_each_file_finds_its_own_line.
 
-(* the path of the source file is invisible to the key while toolinfo omits it *)
-Theorem C18_key_blind_to_source_path_while_omitted o p q ts hs :
-  mem_field F_filePath key_fields = false ->
-  code_keydata o (mkU p ts hs) = code_keydata o (mkU q ts hs).
-Proof. exact (code_keydata_path_blind o p q ts hs). Qed.
-Print Assumptions C18_key_blind_to_source_path_while_omitted.
+(* paths reach the key (fix 0208336) *)
+Theorem C18_source_path_is_streamed : mem_field F_filePath key_fields = true.
+Proof. vm_compute. reflexivity. Qed.
+Print Assumptions C18_source_path_is_streamed.
 
-(* header paths are invisible while the header loop does not append them (hdr_path_in_key = false) *)
-Theorem C18_key_blind_to_header_path_while_omitted e ti p ts hp hq hts hs :
-  hashdata e false ti (mkU p ts ((hp, hts) :: hs)) = hashdata e false ti (mkU p ts ((hq, hts) :: hs)).
-Proof. exact (hashdata_hdrpath_blind e ti p ts hp hq hts hs). Qed.
-Print Assumptions C18_key_blind_to_header_path_while_omitted.
+(* two units that differ at most in the path they were given (same options, tokens,
+   headers) and have the same key data have the same path: a renamed or moved source
+   file never reuses the entry of the old path *)
+Theorem C18_source_path_reaches_the_key o p q ts hs :
+  code_keydata o (mkU p ts hs) = code_keydata o (mkU q ts hs) -> p = q.
+Proof. exact (code_keydata_path_visible o p q ts hs). Qed.
+Print Assumptions C18_source_path_reaches_the_key.
+
+Theorem C18_header_paths_are_hashed : hdr_path_in_key = true.
+Proof. reflexivity. Qed.
+Print Assumptions C18_header_paths_are_hashed.
+
+(* the same header text found under another path gives other hash data *)
+Theorem C18_header_path_reaches_the_key ti p ts hp hq hts hs :
+  hashdata loc_enc hdr_path_in_key ti (mkU p ts ((hp, hts) :: hs)) =
+  hashdata loc_enc hdr_path_in_key ti (mkU p ts ((hq, hts) :: hs)) -> hp = hq.
+Proof. exact (hashdata_hdrpath_visible loc_enc ti p ts hp hq hts hs). Qed.
+Print Assumptions C18_header_path_reaches_the_key.
+
+(* what an omitted path means (the state before 0208336): invisible to the key *)
+Theorem C18_omitted_paths_are_invisible e ti p q ts hp hq hts hs :
+  hashdata e false ti (mkU p ts ((hp, hts) :: hs)) = hashdata e false ti (mkU q ts ((hq, hts) :: hs)).
+Proof. exact (hashdata_hdrpath_blind e ti q ts hp hq hts hs). Qed.
+Print Assumptions C18_omitted_paths_are_invisible.
 
 (* why the fix was needed: under the former endsWith-first lookup x.c and d/x.c share x.a1,
    under the current one they do not *)
